@@ -4,6 +4,7 @@ use jrsonnet_evaluator::{
 	bail,
 	error::{ErrorKind::*, Result},
 	function::{builtin, CallLocation, FuncVal},
+	in_description_frame,
 	manifest::JsonFormat,
 	typed::{Either2, Either4},
 	val::{equals, ArrValue},
@@ -222,8 +223,10 @@ pub fn builtin_merge_patch(target: Val, patch: Val) -> Result<Val> {
 		} else {
 			Val::Null
 		};
-		out.field(field.clone())
-			.value(builtin_merge_patch(field_target, field_patch)?);
+		out.field(field.clone()).value(in_description_frame(
+			|| format!("field <{field}> patching"),
+			|| builtin_merge_patch(field_target, field_patch),
+		)?);
 	}
 	Ok(out.build().into())
 }
